@@ -292,7 +292,15 @@ def layer_api_routes(lmon, work, idx, valid_text, mtexts, sh):
         req = dict(req, name=L)
         for kind, where, text in [("valid", "-", valid_text)] + [m for m in mtexts if m[0] != "delete-required"]:
             vp.rmtree(root)
-            os.makedirs(os.path.join(root, "layers", L))
+            if idx % 8 == 3:
+                # the layer directory is a symbolic link with a RELATIVE target (a volume mounted next to <layers>): relative to <layers>, not to
+                # wherever the process happens to stand
+                os.makedirs(os.path.join(root, "vol", L))
+                os.makedirs(os.path.join(root, "layers"))
+                os.symlink(os.path.join("..", "vol", L), os.path.join(root, "layers", L))
+                sh.count("route_layer_dir_is_relative_symlink")
+            else:
+                os.makedirs(os.path.join(root, "layers", L))
             with open(os.path.join(root, "layers", L, "payload"), "w") as f:
                 f.write("precious cached content")
             with open(os.path.join(root, "layers", L + ".toml"), "w") as f:
@@ -446,6 +454,7 @@ def run(tier, seed, work):
     for d in vp.pmap(shard_run, [(seed, s, work) for s in vp.split(range(n), vp.NCPU)]):
         res.merge(d)
     res.extra["base_documents"] = n
+    res.required = ["route_layer_dir_is_relative_symlink"]
     res.rule = ("evaluations = (document, target type) parses judged. distinct_nontrivial = distinct (format, table path, mutation kind) triples among the mutants "
                 "[unknown-key, delete-required, retype, retype-element, retype-array, add-order/targets/stacks]")
     res.assumptions = ["keys whose optionality the spec leaves open (platform.os inside [platform], store.metadata, distro name/version) are never used for delete-required mutants",
